@@ -51,6 +51,7 @@ class Case(object):
     locals = {}              # local name -> T, for locals initialised with an empty literal
     hooks = ()               # ghost hooks (Hook)
     field_types = {}         # attribute name -> T, for fields initialised with None / an empty literal
+    callee_views = {}        # callee qualname -> label prefixes of the postconditions this caller uses
     inline = ()              # qualified names of small straight-line repo helpers executed in place
     ghost = None             # ghost(c) -> {name: V}: ghost variables at function entry
     status = 'verified'      # 'verified' | 'assumed' (external / out of reach) | 'bounded'
